@@ -1,6 +1,7 @@
 package strategy
 
 import (
+	"bytes"
 	"fmt"
 	"io"
 
@@ -25,6 +26,7 @@ func Update(txn *lmdb.Txn, dbi lmdb.DBI, it Iterator) error {
 		if err != nil && !lmdb.IsNotFound(err) {
 			return fmt.Errorf("get: %w", err)
 		}
+		found := err == nil
 
 		// Get new val by merging existing and iterator's val
 		val, err := it.Merge(dbv)
@@ -34,6 +36,9 @@ func Update(txn *lmdb.Txn, dbi lmdb.DBI, it Iterator) error {
 
 		if err := setNewVal(txn, dbi, key, dbv, val); err != nil {
 			return err
+		}
+		if (len(val) == 0 && found) || (len(val) > 0 && !bytes.Equal(val, dbv)) {
+			observeWrite(it) // setNewVal deleted or put something
 		}
 	}
 }
